@@ -167,15 +167,55 @@ func TestVerif_C08(t *testing.T) {
 		s.NumSlots, s.Gsfa = 12, true
 		s.NoTxIndex = i == 0 // the epoch every configuration loads: transactions without the optional position index
 		s.OddRewards = i == 0 // ... and rewards whose commission strings are empty, numbers, and not a number
+		s.EdgeTxs = i == 0    // ... and legal transactions of unusual shapes (no instructions, no instruction accounts, many signers, version 0, ...)
+		if i == 0 {
+			s.MaxTx = 4 // 1..4 transactions per entry: every shape occurs
+		}
 		specs = append(specs, s)
 	}
 	truths, err := vfxBuild(specs)
-	if err != nil {
-		t.Fatalf("setup failed: %v", err)
-	}
-	for _, tr := range truths {
-		if tr.BuildErr != "" {
-			t.Fatalf("setup failed: fixture %s: %s", tr.Spec.Name, tr.BuildErr)
+	// An epoch whose index build does not go through on the tree under test (this property is about the request
+	// handlers, not about the indexers) is rebuilt in a weaker form instead of ending the run: first without the
+	// address index (its transactions are then reached on the scanning path), then without the unusual shapes.
+	for i := range specs {
+		if i < len(truths) && truths[i] != nil && truths[i].BuildErr == "" {
+			continue
+		}
+		why := fmt.Sprint(err)
+		if i < len(truths) && truths[i] != nil {
+			why = truths[i].BuildErr
+		}
+		if !specs[i].EdgeTxs {
+			t.Fatalf("setup failed: fixture %s: %.2000s", specs[i].Name, why)
+		}
+		weaker := []struct {
+			what string
+			set  func(*vfxSpec)
+		}{
+			{"without the address index", func(s *vfxSpec) { s.Gsfa = false }},
+			{"without transactions of unusual shapes", func(s *vfxSpec) { s.Gsfa, s.EdgeTxs = true, false }},
+		}
+		built := false
+		for _, w := range weaker {
+			if k := strings.Index(why, "panic:"); k >= 0 {
+				why = why[k:] // the crash of the index builder, not the progress output before it
+			}
+			rep.Note("fixture %s does not build on this tree (%.300s): rebuilt %s", specs[i].Name, why, w.what)
+			rep.Count("fixture-rebuilt:" + w.what)
+			w.set(&specs[i])
+			one, err1 := vfxBuild([]vfxSpec{specs[i]})
+			if err1 == nil && one[0] != nil && one[0].BuildErr == "" {
+				truths[i], built = one[0], true
+				break
+			}
+			if err1 != nil {
+				why = fmt.Sprint(err1)
+			} else if one[0] != nil {
+				why = one[0].BuildErr
+			}
+		}
+		if !built {
+			t.Fatalf("setup failed: fixture %s: %.2000s", specs[i].Name, why)
 		}
 	}
 	nReq := 1200
@@ -425,7 +465,7 @@ func TestVerif_C08(t *testing.T) {
 			}()
 			rep.Case(fmt.Sprintf("%s/grpc/stream/%+v", tag, g), true)
 			rep.Count("grpc:StreamTransactions")
-			cases.Add(fmt.Sprintf("CGrpc %s %s %s", vh.CoqBool(hasTxs), coqF, obs))
+			cases.Add(fmt.Sprintf("CGrpc %s %s (%s)", vh.CoqBool(hasTxs), coqF, obs))
 		}
 		// ---- gRPC StreamTransactions: slot ranges (any start, any / absent end)
 		{
@@ -462,7 +502,7 @@ func TestVerif_C08(t *testing.T) {
 						held := 0
 						if withAcc {
 							for _, tr := range truths[:nEpochs] {
-								if tr.Spec.Epoch >= st/vfxEpochLen && tr.Spec.Epoch <= enSlot/vfxEpochLen {
+								if tr.GsfaDir != "" && tr.Spec.Epoch >= st/vfxEpochLen && tr.Spec.Epoch <= enSlot/vfxEpochLen {
 									indexed = true
 									held += len(tr.Blocks)
 								}
@@ -516,7 +556,7 @@ func TestVerif_C08(t *testing.T) {
 						}
 						rep.Case(fmt.Sprintf("%s/grpc/range/%d/%s/%v", tag, st, coqE, withAcc), true)
 						rep.Count("grpc:StreamTransactions:slot-range")
-						cases.Add(fmt.Sprintf("CRange %s %s %s %s %s %s", vh.CoqN(uint64(nEpochs)), vh.CoqN(uint64(held)), vh.CoqBool(indexed), vh.CoqN(st), coqE, obs))
+						cases.Add(fmt.Sprintf("CRange %s %s %s %s %s (%s)", vh.CoqN(uint64(nEpochs)), vh.CoqN(uint64(held)), vh.CoqBool(indexed), vh.CoqN(st), coqE, obs))
 					}
 				}
 			}
@@ -659,6 +699,9 @@ func TestVerif_C08(t *testing.T) {
 				rep.Count("grpc:other")
 			}()
 		}
+		if nEpochs > 0 {
+			vc08EdgeSweep(rep, cases, tag, nEpochs, multi, h, truths[0])
+		}
 		for _, e := range eps {
 			e.Close()
 		}
@@ -669,5 +712,190 @@ func TestVerif_C08(t *testing.T) {
 	rep.CasesWritten(cases)
 	if err := rep.Write(); err != nil {
 		t.Fatal(err)
+	}
+}
+
+// vc08EdgeSweep sends every request shape of this harness that reaches archived transactions at the blocks,
+// signatures and accounts of the epoch built with spec.EdgeTxs (legal transactions of unusual shapes: no
+// instructions, an instruction without accounts, several instructions, every account a signer, twelve
+// signatures, version-0 messages): JSON-RPC getBlock / getTransaction / getBlockTime / getSignaturesForAddress
+// with every encoding and level of detail, gRPC GetBlock / GetTransaction / GetBlockTime / the Get stream /
+// StreamBlocks / StreamTransactions with every combination of the optional vote and failed flags, without and
+// with account filters naming accounts of those transactions. Any panic is the failure; the outcome class of
+// the requests that have a model class is added to the case file.
+func vc08EdgeSweep(rep *vh.Report, cases *vh.CasesFile, tag string, nEpochs int, multi *MultiEpoch, h func(*fasthttp.RequestCtx), tr *vfxTruth) {
+	if !tr.Spec.EdgeTxs || len(tr.Blocks) == 0 {
+		rep.Note("edge sweep skipped: fixture %s has no edge-shaped transactions", tr.Spec.Name)
+		return
+	}
+	ctx := context.Background()
+	shapeSeen := map[string]bool{}
+	var accounts []string // per shape: the first two accounts of its first transaction (a one-off key and one of the shared, indexed ones)
+	accSeen := map[string]bool{}
+	for _, b := range tr.Blocks {
+		for _, tx := range b.Txs {
+			if tx.Edge == "" {
+				continue
+			}
+			rep.Count("edge-tx:" + tx.Edge)
+			if !shapeSeen[tx.Edge] {
+				shapeSeen[tx.Edge] = true
+				for _, a := range tx.Accounts[:2] {
+					if !accSeen[a] {
+						accSeen[a] = true
+						accounts = append(accounts, a)
+					}
+				}
+			}
+		}
+	}
+	for _, sh := range vfxEdgeShapes {
+		if !shapeSeen[sh] {
+			rep.Note("%s: fixture %s holds no transaction of shape %s", tag, tr.Spec.Name, sh)
+		}
+	}
+	rpc := func(method, coqM, first, coqFirst, optJSON, optCoq string) {
+		body := fmt.Sprintf(`{"jsonrpc":"2.0","id":1,"method":%q,"params":[%s`, method, first)
+		if optJSON != "" {
+			body += "," + optJSON
+		}
+		body += "]}"
+		resp, _, panicked, pmsg := vfxRPC(h, body)
+		rep.Case(tag+"/edge/"+body, true)
+		rep.Count("edge-jsonrpc:" + coqM)
+		obs := "RProceeds"
+		if panicked {
+			obs = "RPanic 0"
+			rep.Fail("handler-panic:"+method, fmt.Sprintf("%s: %s -> panic: %.300s", tag, body, pmsg), map[string]interface{}{"epochs_loaded": nEpochs, "body": body, "fixture": "edge_txs"})
+		} else if r, err := vfxParseReply(resp); err == nil && r.Error != nil {
+			switch r.Error.Code {
+			case -32602:
+				obs = "RInvalidParams"
+			case -32601:
+				obs = "RMethodNotFound"
+			}
+		}
+		if optCoq != "-" { // "-" = an option object the model has no term for: only "must not panic"
+			ps := coqFirst
+			if optCoq != "" {
+				ps += "; " + optCoq
+			}
+			cases.Add(fmt.Sprintf("CHttp true %s (PRaw (Some [%s])) (%s)", coqM, ps, obs))
+		}
+	}
+	type opt struct{ json, coq string }
+	encs := []opt{{"", ""}}
+	for _, e := range []string{"base58", "base64", "base64+zstd", "json"} {
+		encs = append(encs, opt{fmt.Sprintf(`{"encoding":%q}`, e), "JObj [(k_encoding, JStr (SEncoding true))]"})
+		encs = append(encs, opt{fmt.Sprintf(`{"encoding":%q,"maxSupportedTransactionVersion":0}`, e), "JObj [(k_encoding, JStr (SEncoding true)); (k_maxver, JNum 0%Z)]"})
+	}
+	encs = append(encs, opt{`{"encoding":"jsonParsed","maxSupportedTransactionVersion":0}`, "-"})
+	blockOpts := append([]opt(nil), encs...)
+	for _, d := range []string{"full", "signatures", "accounts", "none"} {
+		for _, e := range []string{"json", "base64"} {
+			blockOpts = append(blockOpts, opt{fmt.Sprintf(`{"encoding":%q,"transactionDetails":%q,"rewards":false,"maxSupportedTransactionVersion":0}`, e, d), "-"})
+		}
+	}
+	call := func(name string, replay map[string]interface{}, f func() error) {
+		defer func() {
+			if r := recover(); r != nil {
+				replay["epochs_loaded"], replay["fixture"] = nEpochs, "edge_txs"
+				rep.Fail("grpc-panic:"+name, fmt.Sprintf("%s %s %v: %v", tag, name, replay, r), replay)
+			}
+		}()
+		_ = f()
+		rep.Count("edge-grpc:" + name)
+	}
+	var getReqs []*old_faithful_grpc.GetRequest
+	for _, b := range tr.Blocks {
+		slot := b.Slot
+		for _, o := range blockOpts {
+			rpc("getBlock", "MGetBlock", fmt.Sprint(slot), "JNum 0%Z", o.json, o.coq)
+		}
+		rpc("getBlockTime", "MGetBlockTime", fmt.Sprint(slot), "JNum 0%Z", "", "")
+		call("GetBlock", map[string]interface{}{"slot": slot}, func() error {
+			_, e := multi.GetBlock(ctx, &old_faithful_grpc.BlockRequest{Slot: slot})
+			return e
+		})
+		call("GetBlockTime", map[string]interface{}{"slot": slot}, func() error {
+			_, e := multi.GetBlockTime(ctx, &old_faithful_grpc.BlockTimeRequest{Slot: slot})
+			return e
+		})
+		getReqs = append(getReqs, &old_faithful_grpc.GetRequest{Id: slot, Request: &old_faithful_grpc.GetRequest_Block{Block: &old_faithful_grpc.BlockRequest{Slot: slot}}})
+		for _, tx := range b.Txs {
+			if tx.Edge == "" {
+				continue
+			}
+			for _, o := range encs {
+				rpc("getTransaction", "MGetTransaction", `"`+tx.Sig+`"`, "JStr SSig", o.json, o.coq)
+			}
+			sig, err := solana.SignatureFromBase58(tx.Sig)
+			if err != nil {
+				continue
+			}
+			sigBytes := append([]byte(nil), sig[:]...)
+			call("GetTransaction", map[string]interface{}{"signature": tx.Sig, "shape": tx.Edge}, func() error {
+				_, e := multi.GetTransaction(ctx, &old_faithful_grpc.TransactionRequest{Signature: sigBytes})
+				return e
+			})
+			getReqs = append(getReqs, &old_faithful_grpc.GetRequest{Id: slot, Request: &old_faithful_grpc.GetRequest_Transaction{Transaction: &old_faithful_grpc.TransactionRequest{Signature: sigBytes}}})
+		}
+	}
+	call("Get(stream)", map[string]interface{}{"requests": len(getReqs)}, func() error {
+		return multi.Get(&vc08GetStream{ctx: ctx, reqs: getReqs})
+	})
+	for _, a := range accounts {
+		for _, o := range []opt{{"", ""}, {`{"limit":1000}`, "JObj [(k_limit, JNum 0%Z)]"}} {
+			rpc("getSignaturesForAddress", "MGsfa", `"`+a+`"`, "JStr SPubkey", o.json, o.coq)
+		}
+	}
+	first, last := tr.Blocks[0].Slot, tr.Blocks[len(tr.Blocks)-1].Slot
+	T, F := true, false
+	flags := []*bool{nil, &T, &F}
+	ob := func(p *bool) string {
+		if p == nil {
+			return "None"
+		}
+		return "(Some " + vh.CoqBool(*p) + ")"
+	}
+	type accF struct{ inc, exc, req []string }
+	accFs := []accF{{}}
+	for _, a := range accounts {
+		accFs = append(accFs, accF{inc: []string{a}}, accF{exc: []string{a}}, accF{req: []string{a}})
+	}
+	for _, af := range accFs {
+		af := af
+		if af.exc == nil && af.req == nil { // the block filter has account_include only
+			call("StreamBlocks", map[string]interface{}{"start_slot": first, "end_slot": last, "account_include": af.inc}, func() error {
+				req := &old_faithful_grpc.StreamBlocksRequest{StartSlot: first, EndSlot: &last}
+				if af.inc != nil {
+					req.Filter = &old_faithful_grpc.StreamBlocksFilter{AccountInclude: af.inc}
+				}
+				return multi.StreamBlocks(req, &vc08BlockStream{ctx: ctx})
+			})
+		}
+		for _, v := range flags {
+			for _, fl := range flags {
+				req := &old_faithful_grpc.StreamTransactionsRequest{StartSlot: first, EndSlot: &last,
+					Filter: &old_faithful_grpc.StreamTransactionsFilter{Vote: v, Failed: fl, AccountInclude: af.inc, AccountExclude: af.exc, AccountRequired: af.req}}
+				obs := "GStreams"
+				func() {
+					defer func() {
+						if r := recover(); r != nil {
+							obs = "GPanic 0"
+							rep.Fail("grpc-panic:StreamTransactions", fmt.Sprintf("%s slots %d..%d (transactions of unusual shapes) filter vote=%s failed=%s inc=%q exc=%q req=%q: %v", tag, first, last, ob(v), ob(fl), af.inc, af.exc, af.req, r),
+								map[string]interface{}{"epochs_loaded": nEpochs, "fixture": "edge_txs", "start_slot": first, "end_slot": last, "vote": ob(v), "failed": ob(fl), "account_include": af.inc, "account_exclude": af.exc, "account_required": af.req})
+						}
+					}()
+					err := multi.StreamTransactions(req, &vc08Stream{ctx: ctx})
+					if status.Code(err) == codes.InvalidArgument {
+						obs = "GInvalidArgument"
+					}
+				}()
+				rep.Case(fmt.Sprintf("%s/edge/grpc/stream/%s/%s/%v", tag, ob(v), ob(fl), af), true)
+				rep.Count("edge-grpc:StreamTransactions")
+				cases.Add(fmt.Sprintf("CGrpc true (Some {| g_vote := %s; g_failed := %s; g_accounts_wellformed := true |}) (%s)", ob(v), ob(fl), obs))
+			}
+		}
 	}
 }
